@@ -83,3 +83,41 @@ Print Assumptions C06_total.
 Print Assumptions C06_nonvacuous.
 Print Assumptions C06_nonvacuous_answers.
 Print Assumptions C06_double_visit_incoherent.
+
+(** ---- Core fragment, NO hypothesis on an op log (bridge to the indexer model of group scope) ----
+    `_partial`: single-file workspaces; the single-visit condition is the decidable hypothesis [log_fresh] on the
+    position log of the indexer MODEL's final state (evaluated by the bridge driver on every generated Core
+    workspace; not yet derived from "the identifier ranges of the AST are pairwise distinct").
+    For EVERY single-file Core workspace whose identifiers are identifier tokens carrying their text ([stmt_ok]: the
+    output condition of the tree -> CoreAst bridge, proved for the model pipeline in coq/proofs/BridgeSymbol.v by
+    builder "bridge"), the symbol-map state [abs (index_ws w)] that the indexer model (Indexer.v) stands for satisfies
+    the four clauses of the property at every position.  Name agreement, token-ness and allocation of every id
+    (the side conditions op_coh_ok / op_ids_ok that were CHECKED on op logs) are PROVED here from the structure of
+    the program: proofs/IndexerCoh.v, one Hoare-style traversal of Indexer.v carrying the invariant
+    "every lookup structure maps a name to a symbol with that name whose definition is a keyed identifier token". *)
+From TG.Model Require CoreAst Scope Indexer IndexerOps.
+From TG.Proofs Require IndexerCoh.
+Theorem C06_coherent_core_partial : forall toks (root : list CoreAst.stmt) perrs,
+  toks_sorted toks = true -> Forall (IndexerCoh.stmt_ok toks) root ->
+  let s := Indexer.index_ws (CoreAst.mkWs [root] perrs) in
+  IndexerOps.log_fresh s = true ->
+  forall f p t, goto_definition (IndexerOps.abs s) f p = SOk (Some t) ->
+  exists c n rs,
+    tok_name toks c = Some n /\ (fr_file c = f /\ fr_lo c <= p /\ p < fr_hi c) /\
+    (forall c' n', In (c', n') toks -> (fr_file c' = f /\ fr_lo c' <= p /\ p < fr_hi c') -> c' = c) /\
+    tok_name toks t = Some n /\
+    references (IndexerOps.abs s) f p = SOk (Some rs) /\
+    (forall r, In r rs -> tok_name toks r = Some n /\
+       forall q, fr_lo r <= q -> q < fr_hi r -> goto_definition (IndexerOps.abs s) (fr_file r) q = SOk (Some t)) /\
+    (t = c \/ In c rs).
+Proof. exact IndexerCoh.c06_coherent_core. Qed.
+
+(** non-vacuity: `class A { int x; } class B : A { let x = 1; }` satisfies all hypotheses (incl. the `let` pair) *)
+Theorem C06_core_nonvacuous :
+  toks_sorted IndexerCoh.core_ex_toks = true /\ Forall (IndexerCoh.stmt_ok IndexerCoh.core_ex_toks) IndexerCoh.core_ex_root /\
+  IndexerOps.log_fresh (Indexer.index_ws (CoreAst.mkWs [IndexerCoh.core_ex_root] [])) = true /\
+  goto_definition (IndexerOps.abs (Indexer.index_ws (CoreAst.mkWs [IndexerCoh.core_ex_root] []))) 0 37 = SOk (Some (mkFR 0 14 15)) /\
+  references (IndexerOps.abs (Indexer.index_ws (CoreAst.mkWs [IndexerCoh.core_ex_root] []))) 0 14 = SOk (Some [mkFR 0 37 38]).
+Proof. exact IndexerCoh.core_ex_hyps. Qed.
+Print Assumptions C06_coherent_core_partial.
+Print Assumptions C06_core_nonvacuous.
